@@ -9,6 +9,7 @@ Select with VERIF_LMDB_ENGINE=E1|E2 (default: E2 if loadable, else E1).
 Test hooks (used by the fault enumeration of C07, never by nostr_relay):
   lmdb.FAULT = {"countdown": k, "exc": Exception}  -> the k-th put/delete from now raises
   lmdb.MUTATION_LOG = []                          -> every put/delete is appended (op, key)
+  lmdb.BEGIN_FAULT = {"countdown": k, "exc": E}   -> the k-th begin of a write transaction from now raises
 """
 import os
 import ctypes
@@ -42,6 +43,7 @@ class InjectedFault(Error):
 
 FAULT = None
 MUTATION_LOG = None
+BEGIN_FAULT = None
 _hook_lock = threading.Lock()
 
 
@@ -491,6 +493,13 @@ class Transaction:
         self.env = env
         self.write = write
         self._mutations = 0
+        if write and BEGIN_FAULT is not None:
+            f = BEGIN_FAULT
+            with _hook_lock:
+                f["countdown"] -= 1
+                fire = f["countdown"] == 0
+            if fire:
+                raise f.get("exc", InjectedFault)("injected fault at the begin of a write transaction")
         if write:
             env._e.write_lock.acquire()
         try:
